@@ -14,7 +14,7 @@ from ..common import cps, pmap, judge, import_hl7apy, exc_name
 
 
 def gen_strings(ctx, mode, rich, maxstr):
-    cfg = os.path.join(tlc.SPEC_DIR, "_gen_LexMC_%s.cfg" % mode)
+    cfg = os.path.join(tlc.SPEC_DIR, "_gen_LexMC_%s_%d.cfg" % (mode, os.getpid()))
     with open(cfg, "w") as f:
         f.write("CONSTANTS\n Mode = \"%s\"\n MaxStr = %d\n Rich = %s\n EndAfterJunk = %s\nSPECIFICATION Spec\nCHECK_DEADLOCK FALSE\n"
                 "INVARIANT DateIsDateTime\nINVARIANT OffsetIsOptional\nINVARIANT TimeExtendsDate\nINVARIANT PlainIsValid\n"
